@@ -24,7 +24,12 @@ RULE = ('paths are lists of components drawn from weighted classes (1, 2, 3 char
         'Scripts failing part-way: a caller script (depth 0-2) wraps submodule() of 1-2 scripts that declare 0-2 targets '
         '(half of them named and sourced like the caller\'s) and then fail in one of six ways, and declares 1-2 targets '
         'afterwards; the reference is the same script without the call. Half of the system-level projects carry such a '
-        'component and are configured twice (with / without the call).')
+        'component and are configured twice (with / without the call). Object families per language: near-collision families '
+        '(equal file names in different directories, dotted stems, a stem extended by a character, sometimes the same stem with '
+        'another extension) in C, C++, lex, yacc (stand-in tools harness/stubs) or mixed, given BY NAME to the real executable()/'
+        'library builtins, object_files(), generated_sources() (with/without directory=) and generated_source() with explicit '
+        'names; every output of every step created (generated sources, headers, objects, linked file) must be inside the build '
+        'directory and pairwise distinct under the real Makefile duplicate check whenever the sources differ in directory or stem.')
 TRUSTED = ('scripts failing part-way: the reference is a run of the same caller script (same real builtins / same real configure) in '
            'which submodule() is never called; Makefile rules are read with a line-based reader (makefile_rules in harness/c05.py)',
            'Path objects are built from component lists by the real constructor and read back with .suffix/.root; the '
@@ -291,9 +296,20 @@ def plain_head(raw):
     return not s.startswith('~') and s[1:2] != ':' and '\\' not in s and not s.startswith('//')
 
 
+def lex_transpiler(ctx):
+    """the real LexCompiler of the context's environment (lex / flex, else the stand-in harness/stubs/lex); None if there is none"""
+    if not (shutil.which('lex') or shutil.which('flex')):
+        ctx.env.variables['LEX'] = os.path.join(common.VERIF, 'harness', 'stubs', 'lex')
+    try:
+        return ctx.env.builder('lex').transpiler
+    except Exception:
+        return None
+
+
 def stage_w_names(rep, rng, n, rctx):
     from bfg9000.tools.cc.compiler import CcCompiler
     I = impl()
+    lexc = lex_transpiler(rctx)
     calls, res = [], []
     for b in DOTTED + PARISH + SPACED + ['a', 'ab', 'a.b', '.', '..', '', 'a.b.', '.a.', '..a.b', '....c', 'x.\n', 'x.c\n']:
         calls.append(('within.splitext', [b])); res.append(tuple(posixpath.splitext(b)))
@@ -313,6 +329,13 @@ def stage_w_names(rep, rng, n, rctx):
         exp = name[1:].split('/') if exp_root == 2 else (name.split('/') if name else [])
         calls.append(('within.default_name', [[rc, comps]])); res.append(('ok', exp_root, exp))
         rep.case('dn:%d:%s' % (rc, '/'.join(comps)), nontrivial_comps(comps))
+        if lexc is not None:
+            # LexCompiler.default_name: the name of the translated source, likewise
+            name = lexc.default_name(_Obj(path=p), None)
+            exp_root = 2 if name.startswith('/') else 1
+            exp = name[1:].split('/') if exp_root == 2 else (name.split('/') if name else [])
+            calls.append(('within.lex_default_name', [[rc, comps]])); res.append(('ok', exp_root, exp))
+            rep.case('ldn:%d:%s' % (rc, '/'.join(comps)), nontrivial_comps(comps))
     # relname / buildpath at submodule depth 0-3
     for _ in range(n):
         depth = rng.choice([0, 1, 1, 2, 3])
@@ -397,6 +420,7 @@ def stage_w_objects(rep, rng, n, fixed, ctx):
     """The real executable()/static_library()/shared_library()/copy_file() builtins against link_object/copy_output."""
     from bfg9000 import file_types
     calls, res = [], []
+    lexc = lex_transpiler(ctx)
     for _ in range(n):
         depth = rng.choice([0, 0, 1, 2, 3])
         base = [rng.choice(['sub', 'ab', 'deep', 'a b']) for _ in range(depth)]
@@ -436,6 +460,15 @@ def stage_w_objects(rep, rng, n, fixed, ctx):
             o = 'ValueError'
         calls.append(('within.copy_via', [fixed, base, dirraw is not None, dirraw or [], [rc, comps]]))
         res.append(o)
+        if lexc is not None:
+            # generated_source() of a lex source without a name, with and without directory
+            try:
+                o = canon(c['generated_source'](file=file_types.SourceFile(p, 'lex'), **kw).path)
+            except ValueError:
+                o = 'ValueError'
+            calls.append(('within.lex_via', [fixed, base, dirraw is not None, dirraw or [], [rc, comps]]))
+            res.append(o)
+            rep.case('lexsrc:%s|%r:%d:%s' % ('/'.join(base), dirraw, rc, '/'.join(comps)), nontrivial_comps(comps))
     raw = common.model_batch(calls)
     dis, rp, errs = [], 0, 0
     # a ValueError anywhere in one target makes the whole builtin call fail: compare per source only when the
@@ -519,8 +552,157 @@ def stage_oracle_objects(rep, rng, n, ctx):
     return bad
 
 
+# ----------------------------------------------------------------------------- object families in every source language
+LANG_EXTS = {'c': ['.c'], 'c++': ['.cpp', '.cc'], 'lex': ['.l'], 'yacc': ['.y']}
+TRANSLATED = ('lex', 'yacc')          # languages that are translated to C first (generated_source), then compiled
+YACC_DIR_ERROR = 'expected str, bytes or os.PathLike object, not list'
+YACC_FWD_ERROR = "'list' object has no attribute 'lang'"
+
+
+def lang_family_case(rng, langs):
+    """One near-collision family of sources (see stage_oracle_objects) in ONE language or MIXED, and the way it reaches the
+    builtins: as files= of a target, through object_files(), through generated_sources() (translated languages; with and
+    without directory=), or one generated_source() per file with explicit, distinct names."""
+    st = rng.choice(['codec', 'a', 'b1', 'x.pb', 'foo.test', 'main', 'scan'])
+    fam = [('', st), ('', st + '.tables'), ('', st + '.tables.v2'), ('d1', st), ('d2', st), ('d1/d2', st), ('', st + 'x'),
+           ('d1', st + '.tables'), ('d2/d1', st)]
+    mode = rng.choice(langs + ['mixed', 'mixed'])
+    chosen = []
+    for d, stem in rng.sample(fam, rng.randint(2, 5)):
+        lang = rng.choice(langs) if mode == 'mixed' else mode
+        chosen.append([d, stem + rng.choice(LANG_EXTS[lang]), lang])
+    if rng.random() < 0.25:
+        d, f, lang = rng.choice(chosen)          # same directory and stem, another extension: a collision (to be rejected)
+        others = [e for l in langs for e in LANG_EXTS[l] if not f.endswith(e) and (l in TRANSLATED) == (lang in TRANSLATED)]
+        if others:
+            e = rng.choice(others)
+            chosen.append([d, f.rsplit('.', 1)[0] + e, [l for l in langs if e in LANG_EXTS[l]][0]])
+    only_translated = all(l in TRANSLATED for _, _, l in chosen)
+    how = rng.choice(['target', 'target', 'target', 'object_files'] + (['generated_sources', 'generated_named'] if only_translated else []))
+    kind = rng.choice(KINDS)[0]
+    return {'kind': 'lang-family', 'how': how, 'target_kind': kind, 'intermediate_dirs': rng.random() < 0.6,
+            'directory': rng.choice([None, None, 'gen', 'out/gen']) if how in ('object_files', 'generated_sources') else None,
+            # a yacc source given to a target is mostly translated by an explicit generated_source() call first
+            'yacc_direct': rng.random() < 0.15, 'base': rng.choice([[], [], ['sub']]), 'sources': chosen}
+
+
+def run_lang_family(ctx, case):
+    """-> (error or None, [(root, suffix) per output of every step created], duplicate message of the real Makefile or None)"""
+    from bfg9000.backends.make.syntax import Makefile
+    from bfg9000.iterutils import listify
+    build, c = ctx.context(case['base'])
+    c['project']('p', intermediate_dirs=case['intermediate_dirs'])
+    names = [(d + '/' if d else '') + f for d, f, _ in case['sources']]
+    kw = {'directory': case['directory']} if case.get('directory') else {}
+    try:
+        if case['how'] == 'generated_sources':
+            c['generated_sources'](names, **kw)
+        elif case['how'] == 'generated_named':
+            for i, (nm, (_, _, lang)) in enumerate(zip(names, case['sources'])):
+                c['generated_source']('gen/g%d.c' % i, nm)
+        else:
+            files = []
+            for nm, (_, _, lang) in zip(names, case['sources']):
+                if lang == 'yacc' and not case['yacc_direct']:
+                    files.append(c['generated_source'](file=nm)[0])
+                else:
+                    files.append(nm)
+            if case['how'] == 'object_files':
+                c['object_files'](files, **kw)
+            else:
+                c[case['target_kind']]('prog', files=files)
+    except Exception as e:
+        return '%s: %s' % (type(e).__name__, e), [], None
+    outs = [[o.path for o in listify(e.output)] for e in build.edges()]
+    mk, dup = Makefile('build.bfg'), None
+    try:
+        for o in outs:
+            mk.rule(o, recipe=[['true']])
+    except ValueError as e:
+        dup = str(e)
+    return None, [(p.root.name, p.suffix) for o in outs for p in o], dup
+
+
+def lang_family_classes(case, err):
+    """Finding yacc-default-names: a yacc source whose outputs are named by default (translation unit AND header) cannot be
+    combined with a directory (directory= or the intermediate directory of a target: Path() of the list of two names) nor be
+    forwarded by object_file()/a target (the list of two outputs has no .lang). Exactly these two messages."""
+    yacc_default = any(l == 'yacc' for _, _, l in case['sources']) and case['how'] != 'generated_named'
+    forwarded = case['how'] in ('target', 'object_files') and case['yacc_direct']
+    if not err or not yacc_default:
+        return ()
+    with_dir = bool(case.get('directory')) or (case['how'] == 'target' and case['intermediate_dirs'] and forwarded)
+    if err == 'TypeError: ' + YACC_DIR_ERROR and with_dir and (forwarded or case['how'] == 'generated_sources'):
+        return ('yacc-default-names-with-directory',)
+    if err == 'AttributeError: ' + YACC_FWD_ERROR and forwarded and not with_dir:
+        return ('yacc-default-names-forwarded',)
+    return ()
+
+
+def check_lang_family(rep, ctx, case, what='oracle'):
+    err, outs, dup = run_lang_family(ctx, case)
+    keys = [(d, f.rsplit('.', 1)[0]) for d, f, _ in case['sources']]
+    distinct_inputs = len(set(keys)) == len(keys)
+    srcs = [(d + '/' if d else '') + f for d, f, _ in case['sources']]
+    desc = '%s%s, intermediate_dirs=%r%s' % (case['how'], ' ' + case['target_kind'] if case['how'] == 'target' else '',
+                                             case['intermediate_dirs'], ', directory=%r' % case['directory'] if case.get('directory') else '')
+    if err is not None:
+        if distinct_inputs:
+            return rep.fail('%s: %s of sources %r is rejected although all of them differ in directory or stem: %s' % (what, desc, srcs, err),
+                            dict(case, error=err), classes=lang_family_classes(case, err))
+        return False
+    outside = [o for o in outs if o[0] != 'builddir' or o[1].startswith('..') or o[1].startswith('/')]
+    if outside:
+        return rep.fail('%s: %s of sources %r: outputs outside the build directory: %r' % (what, desc, srcs, outside),
+                        dict(case, outputs=outs))
+    if distinct_inputs and (len(set(outs)) != len(outs) or dup):
+        return rep.fail('%s: %s: sources %r differ in directory or stem but two steps write one path (%s): %r' % (
+            what, desc, srcs, dup, sorted(o[1] for o in outs if outs.count(o) > 1)), dict(case, outputs=outs))
+    if not distinct_inputs and len(set(outs)) != len(outs) and not dup:
+        return rep.fail('%s: %s: two steps write one path and the emitter does not reject it: %r' % (what, desc, outs),
+                        dict(case, outputs=outs))
+    return False
+
+
+def stage_oracle_lang_families(rep, n, ctx, recorded=()):
+    """The object-family oracle for EVERY source language the builtins accept and whose tool exists here or can be stood in
+    (C, C++, lex and yacc through harness/stubs; one language or mixed in one step), handed to the real builtins as file NAMES
+    (so the builtins choose language, translator and compiler), and for the generated-source steps themselves. Observed are
+    the outputs of every step the call created (generated sources, headers, objects, the linked file)."""
+    rng = random.Random('langfam:%s' % rep.seed)
+    stub = os.path.join(common.VERIF, 'harness', 'stubs')
+    for var, tool in (('LEX', 'lex'), ('YACC', 'yacc')):
+        if not shutil.which(tool) and not shutil.which({'lex': 'flex', 'yacc': 'bison'}[tool]):
+            ctx.env.variables[var] = os.path.join(stub, tool)
+    langs = []
+    for lang in LANG_EXTS:
+        try:
+            ctx.env.builder(lang)
+            langs.append(lang)
+        except Exception as e:
+            rep.count('langfam:language %s not available: %s' % (lang, type(e).__name__))
+    bad = 0
+    for case in list(recorded):
+        bad += bool(check_lang_family(rep, ctx, case, 'replay'))
+    for _ in range(n):
+        case = lang_family_case(rng, langs)
+        ls = sorted({l for _, _, l in case['sources']})
+        rep.case('langfam:%r' % (sorted(case.items()),), True)
+        rep.count('langfam:how:' + case['how'])
+        rep.count('langfam:languages:' + '+'.join(ls))
+        dirs = {}
+        for d, f, l in case['sources']:
+            dirs.setdefault((f, l), set()).add(d)
+        for (f, l), ds in dirs.items():
+            if len(ds) > 1:
+                rep.count('langfam:equal file names in different directories:' + l)
+        bad += bool(check_lang_family(rep, ctx, case))
+    rep.stage('oracle:object families per language', cases=n, languages=langs, failures=bad)
+    return bad
+
+
 # ----------------------------------------------------------------------------- scripts that fail part-way
-FAIL_HOW = [('raise', "raise RuntimeError('sdk not found')"), ('name', 'undefined_function_of_the_sdk()'), ('zero', 'x = 1 // 0'),
+FAIL_HOW =[('raise', "raise RuntimeError('sdk not found')"), ('name', 'undefined_function_of_the_sdk()'), ('zero', 'x = 1 // 0'),
             ('missing-sub', "submodule('does-not-exist')"), ('bad-arg', "executable()"), ('exit', 'exit(3)')]
 CATCH_HOW = ['except Exception:\n    pass', 'except Exception as e:\n    info("disabled: " + str(e))',
              'except (RuntimeError, NameError, ZeroDivisionError, TypeError, OSError, ValueError, Exception):\n    pass']
@@ -1295,6 +1477,7 @@ def run(rep):
         found = stage_oracle_within(rep, rng, 4 if (thorough or dis) else 3, (n // 3) * (10 if dis else 1))
         found += stage_oracle_objects(rep, rng, (600 if thorough else 120) * (5 if dis else 1), ctx)
         found += stage_oracle_failed_scripts(rep, rng, 400 if thorough else 80, ctx)
+        found += stage_oracle_lang_families(rep, (1500 if thorough else 250) * (4 if dis else 1), ctx)
     finally:
         shutil.rmtree(scratch, ignore_errors=True)
     found += kbad
@@ -1325,6 +1508,15 @@ def replay(rep, path):
             ctx = Ctx(scratch)
             case = {k: v for k, v in r.items() if k in ('kind', 'base', 'intermediate_dirs', 'before', 'after', 'subs')}
             if not stage_oracle_failed_scripts(rep, random.Random(0), 0, ctx, [case]):
+                print('replayed case no longer fails')
+        finally:
+            shutil.rmtree(scratch, ignore_errors=True)
+        return
+    if r.get('kind') == 'lang-family':
+        scratch = common.scratch('c05')
+        try:
+            case = {k: r[k] for k in ('kind', 'how', 'target_kind', 'intermediate_dirs', 'directory', 'yacc_direct', 'base', 'sources')}
+            if not stage_oracle_lang_families(rep, 0, Ctx(scratch), [case]):
                 print('replayed case no longer fails')
         finally:
             shutil.rmtree(scratch, ignore_errors=True)
